@@ -17,7 +17,7 @@ from vt import Infra
 from cexpr import CT, lit, leaves, render, const_text
 
 FAMS = ["bin", "un", "cast", "cond", "d2l", "d2r"]
-STRIDE = 128
+STRIDE = 96
 ROT = ["bool", "char", "uchar", "short", "ushort", "int", "uint", "long", "ulong", "enum"]
 WID = {"bool": 1, "char": 8, "uchar": 8, "short": 16, "ushort": 16, "int": 32, "uint": 32, "long": 64, "ulong": 64, "enum": 32}
 SGN = {"char", "short", "int", "long", "enum"}
@@ -229,7 +229,7 @@ def run(ctx):
     if ctx.tlc("expr", "ExprMC", c2, workers=4, timeout=600, count=False).ok:
         raise Infra("sensitivity control failed: TLC accepts the folder with the uint32_t cast arm")
     ctx.phase("mc done")
-    vec = cexpr.generate(ctx, FAMS, STRIDE if q else 2, 24 if q else 4, workers=12 if q else 16, minimum=1000)
+    vec = cexpr.generate(ctx, FAMS, STRIDE if q else 1, 6 if q else 1, workers=12 if q else 16, minimum=1000, base=2, d2base=4)
     ctx.phase("gen done (%d vectors)" % len(vec))
     dz = [v for v in vec if v["dz"]]
     vec = [v for v in vec if not v["dz"]]
@@ -251,8 +251,8 @@ def run(ctx):
         "a context is used only when the value fits it (array bound 1..2000, bit-field width 1..32, _Alignas power of two <= 64, designator 0..500, enumerator in int range)"]
     return ctx.finish(
         rule="case = (constant expression of ExprGen.tla's closed domain, constant context that can hold its value) + the same expression computed at run time from non-constant copies; plus zero-divisor expressions in each context as diagnostic behaviours; non-trivial = every constant context (the run-time evaluation is the C01 side); distinct = distinct (context, destination type, expression text)",
-        exhaustive=False,
-        extra=dict(vectors=len(vec), divzero=len(dz), stride=STRIDE if q else 2))
+        exhaustive=not q,
+        extra=dict(vectors=len(vec), divzero=len(dz), stride=STRIDE if q else 1))
 
 
 def replay(ctx, path):
